@@ -50,6 +50,26 @@ fn cases(rec: &Value) -> Vec<Case> {
                            q(account), if prec >= 0 { prec_yaml("CHF") } else { "  row_order: old_to_new\n".to_string() });
         v.push(Case { name: "camt", yaml, source: xml, ext: "xml", format: Format::IsoCamt053 });
     }
+    // ---- Viseca (line based: payee on the entry line, category below; a second entry in a foreign currency with
+    //      exchange rate and processing fee exercises rates and charges)
+    if note.is_empty() && code == "~" && !payee.contains('\n') && !payee.contains('\r') {
+        let d = Decimal::from_i128_with_scale(amt["m"].as_str().unwrap().parse::<i128>().unwrap(), amt["s"].as_u64().unwrap() as u32);
+        let mut shown = d.abs();
+        shown.rescale(2);
+        let txt = shown.to_string();
+        let (ip, fp) = txt.split_once('.').unwrap();
+        let mut grouped = String::new();
+        for (i, ch) in ip.chars().enumerate() {
+            if i > 0 && (ip.len() - i) % 3 == 0 { grouped.push('\''); }
+            grouped.push(ch);
+        }
+        let neg = if amt["neg"] == true { " -" } else { "" };
+        let src = format!("05.01.24 06.01.24 {} CH {}.{}{}\nGrocery stores\n10.01.24 11.01.24 Europe Gas AT EUR 46.88 52.10\nService stations\nExchange rate 1.092432 of 11.01.24 CHF 51.20\nProcessing fee 1.75% CHF 0.90\n",
+                          payee, grouped, fp, neg);
+        let yaml = format!("path: stmt.txt\nencoding: UTF-8\naccount: {}\naccount_type: liability\noperator: \"Card (fee)\"\ncommodity: CHF\nformat:\n{}rewrite:\n  - matcher:\n      category: \"Service stations\"\n    account: \"Expenses:Car\"\n",
+                           q(account), if prec >= 0 { format!("  commodity:\n    CHF:\n      precision: {}\n    EUR:\n      precision: {}\n", prec, prec) } else { "  row_order: old_to_new\n".to_string() });
+        v.push(Case { name: "viseca", yaml, source: src, ext: "txt", format: Format::Viseca });
+    }
     v
 }
 
